@@ -67,7 +67,10 @@ def run(out, tier, seed):
                 evs.append({"op": "append", "x": rng.choice(M)}); n += 1
             elif r_ < 0.35:
                 xs = [rng.choice(M) for _ in range(rng.randint(0, 3))]
-                evs.append({"op": "iadd", "xs": xs}); n += len(xs)
+                if rng.random() < 0.2 and 0 < n <= 6:
+                    evs.append({"op": "iadd", "xs": [], "self": True}); n += n        # the collection as its own operand
+                else:
+                    evs.append({"op": "iadd", "xs": xs}); n += len(xs)
             elif r_ < 0.5:
                 evs.append({"op": "setitem", "i": rng.randint(0, n + 1), "x": rng.choice(M)})
             elif r_ < 0.7:
